@@ -187,6 +187,11 @@ class NoneConverter(Converter[None]):
     Converter which accepts only ``None``.
     """
 
+    def into_data(self, val: t.Any) -> DataType:
+        """See [`Converter.into_data`][pane.converters.Converter.into_data]"""
+        # `None` is its own interchange form (anything else is written by its runtime type)
+        return None if val is None else into_data(val)
+
     def try_convert(self, val: t.Any) -> None:
         """See [`Converter.try_convert`][pane.converters.Converter.try_convert]"""
         if val is None:
@@ -211,6 +216,11 @@ class LiteralConverter(Converter[T_co]):
     """
 
     vals: t.Sequence[T_co]
+
+    def into_data(self, val: t.Any) -> DataType:
+        """See [`Converter.into_data`][pane.converters.Converter.into_data]"""
+        # literal values are written by their runtime type (scalars stay as they are, enum members become their value)
+        return into_data(val)
 
     def _is_member(self, val: t.Any) -> bool:
         # equality alone would accept values of another kind (True == 1 == 1.0)
